@@ -56,7 +56,7 @@ PLANS = {
     'C16': {'jobs': [J('sel', W124, 2), J('cq', W124, 2), J('cq', [2, 4], 1, 'asan'), S('cqrace', [2, 4], 2), D('cq', [1, 2], 'CQ_'), D('sel', [2], 'CQ_'), H('cq', [2, 4], 'CQ_DROP_PUSHED,CQ_POLL_COUNTED'), H('sel', [2], 'CQ_SEND_SUB_PUSHED,CQ_POLL_REGISTERED,CQ_POLL_COUNTED'), J('selc', [2], 1)]},
     'C17': {'jobs': [J('io', W124, 2), J('tcp', W124, 1), J('dgram', W124, 1), J('io', [2], 1, 'asan'), J('tcp', [2], 1, 'asan'), J('iochurn', W124, 1), J('unixsrv', [2, 4], 1), S('iorace', [1, 2, 4], 2),
                      J('tcp', [16], 1, thorough_only=True), J('iochurn', [16], 1, thorough_only=True), S('unixsrv', [16], 1, thorough_only=True), D('io', [2], 'IO_READ,IO_WRITE,EP_,IOTHREAD_'), D('tcp', [2], 'IO_ACCEPT,IO_CONNECT,EP_'), H('io', [2], 'IO_READ_EAGAIN,IO_READ_SUB_STORED,IO_WRITE_EAGAIN,IO_WRITE_SUB_STORED,EP_EVENT_FLAGGED'), J('tcp', [2], 1, fresh=3, k=1, random=0), J('yieldspinio', [1, 2], 1, k=1, random=2), J('ioext', W124, 1), J('ioext', [2], 1, 'asan')]},
-    'C18': {'jobs': [J('iot', W124, 3), J('iocan', W124, 2), J('iocant', W124, 1), J('iot', [2], 1, 'asan'), D('iot', [2], 'IO_,EP_,TL_,LIST_'), D('iocan', [2], 'IO_,CANCEL_'), H('iot', [2, 4], 'IO_TIMEOUT_TIMER_TAKEN,IO_TIMEOUT_HANDLER_ENTER,IO_READ_SUB_ARMED,IO_READ_SUB_STORED,IO_SCHEDULE_TOOK,IO_READ_EAGAIN'), J('yieldspinio', [1, 2], 1, k=1, random=2), J('ioext', [1, 2], 1)]},
+    'C18': {'jobs': [J('iot', W124, 3), J('iocan', W124, 2), J('iocant', W124, 1), J('iot', [2], 1, 'asan'), D('iot', [2], 'IO_,EP_,TL_,LIST_'), D('iocan', [2], 'IO_,CANCEL_'), H('iot', [2, 4], 'IO_TIMEOUT_TIMER_TAKEN,IO_TIMEOUT_HANDLER_ENTER,IO_READ_SUB_ARMED,IO_READ_SUB_STORED,IO_SCHEDULE_TOOK,IO_READ_EAGAIN'), J('yieldspinio', [1, 2], 1, k=1, random=2), J('ioext', [1, 2], 1), S('iotrace', [1, 2, 4], 1), S('iotrace', [2], 1)]},
     'C03': {'engine': 'q', 'jobs': [J('q', lane='q'), J('q', lane='qasan'), J('q', lane='qtsan')]},
     'C04': {'engine': 'q', 'jobs': [J('q', lane='q'), J('q', lane='qasan')]},
     'C19': {'engine': 'q', 'jobs': [J('q', lane='q'), J('q', lane='qasan')]},
